@@ -18,7 +18,7 @@ RULE = ("Generated: stand-alone assets of every class and portfolios of them (T 
         "[off_a, off_a+n_a) in concatenation order, there c,l,u, its rows of A,b,cType and its mapping rows (shifted "
         "back, as multiset) equal the stand-alone problem of a fresh copy, its rows are zero elsewhere; exactly one N "
         "row per (node,step) with dispatch rows, coefficient = sum of disp_factor per variable, b=0, map_nodal_restr "
-        "lists the same pairs in row order. Non-trivial: some asset has an unmapped variable, several rows per "
+        "lists the same pairs in row order; periodic assets: two active steps share a variable iff they are a whole number of periods apart within one duration block (periods and blocks counted from the grid start, as C13's reference does), for every node and variable name. In 1 of 2 cases also the split build (6h, 12h, d): c is the stacked c, interval k's rows of the split mapping are its own rows with the index shifted by the number of variables before it and the steps by a constant, step ranges of successive intervals follow each other. Non-trivial: some asset has an unmapped variable, several rows per "
         "variable, appended variables (bool/scale) or an adversarial name, and the portfolio has >= 2 assets. "
         "Distinct = distinct spec hash.")
 ASSUMPTIONS = ["structural comparison rtol 1e-9 / atol 1e-12, no solver",
@@ -43,6 +43,7 @@ def _strategy(draw):
     if draw(st.integers(0, 9)) < 4:
         gen.rename_nodes(draw, spec)
         spec["adversarial_names"] = True
+    spec["split"] = draw(st.sampled_from([None, None, None, "6h", "12h", "d"]))
     return spec
 
 
@@ -121,6 +122,53 @@ def structural(out, op, T, what):
     return True
 
 
+def split_mapping(spec, out):
+    """the mapping of a split problem describes the stacked interval problems: interval k occupies the variables
+    [off_k, off_k + n_k), its rows are the interval's own rows with the index shifted by off_k and the steps by a
+    constant, the step ranges of successive intervals follow each other on the original grid, c is the stacked c"""
+    rs = obs.Run(spec, split=spec["split"])
+    if is_err(rs.op):
+        return out.label("split_setup_error:" + rs.op.kind)
+    ops = rs.op.ops
+    mp = rs.op.mapping
+    ntot = sum(len(o.c) for o in ops)
+    out.label("split_mapping_checked", "split_intervals:%d" % min(len(ops), 4))
+    if len(rs.op.c) != ntot or not core.close_struct(rs.op.c, np.hstack([np.asarray(o.c, float) for o in ops]) if ops else np.zeros(0)):
+        return out.fail("split problem: c is not the stacked c of the interval problems")
+    idx = mp.index.values.astype(int)
+    if len(idx) and (idx.min() < 0 or idx.max() >= ntot):
+        return out.fail("split mapping: index outside [0,%d)" % ntot)
+    if len(mp) != sum(len(o.mapping) for o in ops):
+        return out.fail("split mapping has %d rows, the interval mappings %d" % (len(mp), sum(len(o.mapping) for o in ops)))
+    off = 0
+    prev_hi = -1
+    T = spec["grid"]["T"]
+    for k, o in enumerate(ops):
+        nk = len(o.c)
+        rows = mp[(idx >= off) & (idx < off + nk)]
+        if len(rows) != len(o.mapping):
+            return out.fail("split mapping: interval %d has %d rows for its variables [%d,%d), its own mapping has %d"
+                            % (k, len(rows), off, off + nk, len(o.mapping)))
+        if len(rows):
+            shift = int(rows["time_step"].min()) - int(o.mapping["time_step"].min())
+            loc = o.mapping.copy()
+            loc["time_step"] = loc["time_step"].astype(int) + shift
+            try:
+                ra, rb = mapping_records(rows, off), mapping_records(loc)
+            except Exception as e:
+                return out.fail("split mapping rows cannot be read: %r" % (e,))
+            if ra != rb:
+                diff = [x for x in ra if x not in rb][:2] + [x for x in rb if x not in ra][:2]
+                return out.fail("split mapping: rows of interval %d (index - %d, steps - %d) differ from the interval's own mapping, e.g. %s"
+                                % (k, off, shift, diff))
+            lo, hi = int(rows["time_step"].min()), int(rows["time_step"].max())
+            if lo <= prev_hi or hi >= T:
+                return out.fail("split mapping: interval %d covers steps %d..%d, previous intervals reach step %d, grid has %d steps"
+                                % (k, lo, hi, prev_hi, T))
+            prev_hi = hi
+        off += nk
+
+
 def check(spec):
     out = Outcome()
     T = spec["grid"]["T"]
@@ -192,6 +240,41 @@ def check(spec):
         off += na
     if off != n:
         out.fail("assets have %d variables in total but portfolio has %d" % (off, n))
+    # ---------------------------------------------------------------- periodic assets: which steps share a variable
+    # (independent of the block differential, which compares EAO with itself): two active steps of a periodic asset
+    # refer to the same variable iff they are a whole number of periods apart (within the same duration block),
+    # for every node / variable name alike
+    for a in spec["assets"]:
+        if not a.get("_p") or a.get("freq"):
+            continue
+        p_, q_ = a["_p"], a.get("_q")
+        m_ = op.mapping[(op.mapping["asset"] == a["name"])]
+        m_ = m_[m_["type"].isin(["d"])]
+        if len(m_) == 0:
+            continue
+        out.label("periodic_rows_checked")
+        groups = {}
+        for i, node, vn, t in zip(m_.index.values.astype(int), m_["node"].astype(str).values, m_["var_name"].astype(str).values,
+                                  m_["time_step"].values.astype(int)):
+            groups.setdefault((node, vn), {})[int(t)] = int(i)
+        for (node, vn), tv in groups.items():
+            steps = sorted(tv)
+            bad = None
+            for x in steps:
+                for y in steps:
+                    if y <= x:
+                        continue
+                    same_exp = (y - x) % p_ == 0 and (q_ is None or x // (p_ * q_) == y // (p_ * q_))
+                    if (tv[x] == tv[y]) != same_exp:
+                        bad = (x, y, tv[x], tv[y], same_exp)
+                        break
+                if bad:
+                    break
+            if bad:
+                out.fail("periodic asset %s (period %d steps%s), node %s %s: steps %d and %d refer to variables %d and %d, expected %s"
+                         % (a["name"], p_, "" if q_ is None else ", duration %d periods" % q_, node, vn, bad[0], bad[1], bad[2], bad[3],
+                            "the same variable" if bad[4] else "different variables"))
+                break
     if len(set(op.mapping["asset"].unique()) - set(a["name"] for a in spec["assets"])):
         out.fail("mapping names unknown assets %s" % (set(op.mapping["asset"].unique()) - set(a["name"] for a in spec["assets"])))
     # ---------------------------------------------------------------- nodal rows
@@ -224,6 +307,8 @@ def check(spec):
             if op.b[ri] != 0:
                 out.fail("nodal row %d has right-hand side %g" % (k, op.b[ri]))
                 break
+    if spec.get("split") and not out.violations:
+        split_mapping(spec, out)
     out.label("special_shape" if special else "plain_shape", "adversarial_names" if spec.get("adversarial_names") else None)
     out.nontrivial = len(spec["assets"]) >= 2 and (special or bool(spec.get("adversarial_names")))
     return out
